@@ -10,6 +10,7 @@ EXPLANATION = (
     "D3 the two maps are insertion-ordered (IndexMap/Vec), existing entries updated in place (get_mut; checksums appended with push), new entries inserted under the line's own name; "
     "D4 line fields are split on bytes (no u8-as-char Unicode predicate); "
     "D5 Line::from_bytes: unknown algorithm / unparsable size / malformed name -> Line::None; Distinfo::from_bytes: Line::None has no effect, Size->update_size, Checksum->update_checksum with the line's own fields; "
+    "D4-BLANKSET every blank test in Line::from_bytes (leading blanks, field separator), in whatever spelling, accepts space and tab and nothing outside ASCII white space (table over 256 byte values); "
     "D5-WHOLE-LINE the text split into fields is the whole line with only leading blanks skipped; "
     "D5-LINES the lines handed to Line::from_bytes are the pieces of a byte-level split of the input at '\\n' (no UTF-8 line reader, no adapter in between) and the loop ends only by exhaustion")
 NOT_DECIDED = [
@@ -245,6 +246,8 @@ def run(ctx):
             ctx.check(is_line, "D5-WHOLE-LINE", LFB, "fields-from-whole-line", "fields = whole line minus leading blanks (%s)" % (",".join(steps) or "as is"),
                       "the text split into fields is %s: the line is cut or altered before its fields are taken, so a byte inside a file name can end the line" % term_str(x)[:160],
                       lbody.span_of(bb))
+    # D4-BLANKSET: what counts as a blank between fields / before the first field, tabulated over all 256 byte values
+    check_blank_sets(ctx, "D4-BLANKSET", LFB, floor=2)
     paths = ctx.paths(DFB)
     body = ctx.body(DFB)
     if paths:
